@@ -119,14 +119,14 @@ func (vc *VC) Run() {
 	}
 	// global invariants of the package
 	for _, gi := range vc.prog.cs.GlobalInvs {
-		if gi.Pkg != vc.pkg.Path() || strings.HasPrefix(fn.Name(), "init") {
+		if gi.Pkg != vc.pkg.Path() || isInitName(fn.Name()) {
 			continue
 		}
 		root := fn
 		for root.Parent() != nil {
 			root = root.Parent()
 		}
-		if strings.HasPrefix(root.Name(), "init") {
+		if isInitName(root.Name()) {
 			continue
 		}
 		// cheap pre-filter on the invariant's text: a function that references none of the package
@@ -1948,3 +1948,6 @@ func (vc *VC) noteMapTarget(li *loopInfo, m ssa.Value) {
 	}
 	li.mapTargets = append(li.mapTargets, m)
 }
+
+// isInitName: the package initialiser go/ssa synthesizes ("init") or a source init function ("init#N").
+func isInitName(n string) bool { return n == "init" || strings.HasPrefix(n, "init#") }
